@@ -22,6 +22,10 @@
 #include <cstring>
 #include <cstdio>
 
+// everything of the harness lives in its own namespace: exp2cxx puts typedefs named after the schema's enumeration
+// types (`typedef Dszpo L;`) into the global namespace
+namespace c02h {
+
 static std::string lower(const char *s) {
     std::string r(s ? s : "");
     for (size_t i = 0; i < r.size(); i++) r[i] = (char)tolower((unsigned char)r[i]);
@@ -206,7 +210,7 @@ static std::string listed(SDAI_Application_instance *inst, const char *owner, co
 #include "c02_acc.inc"
 #endif
 
-int main(int argc, char **argv) {
+static int run() {
     Registry reg(SchemaInit);
     g_reg = &reg;
     {
@@ -238,3 +242,7 @@ int main(int argc, char **argv) {
     std::cout << "END\n";
     return 0;
 }
+
+} // namespace c02h
+
+int main(int, char **) { return c02h::run(); }
